@@ -308,7 +308,7 @@ def _negzero_variants(b):
 
 
 def _quoted(t):
-    return [x.split(':', 1)[1] if re.match(r'^(F|D|LF|LD|LS|LX):', x) else x for x in re.findall(r"'([^']*)'", t)]
+    return [x.split(':', 1)[1] if re.match(r'^(F|D|LF|LD|LS|LX|LL|LN):', x) else x for x in re.findall(r"'([^']*)'", t)]
 
 
 def negzero_failure(text, msgs):
